@@ -843,6 +843,32 @@ def fam_quiesce(rng, sid0, n):
     return out
 
 
+def fam_offsets(rng, sid0, n):
+    """Enumeration, not a draw: an event is triggered after exactly k service calls into a line, for every k of the line's
+    life (both machines pass through every pair of phases, in particular both waiting for the output in the same round), then
+    the system must become quiescent within the budget.  Scenario i fixes line form x event form x working-buffer layout."""
+    out = []
+    lines = [b"\nAT+A?\n", b"AT+A?\r\n", b"AT+A=?\n", b"AT+A\n", b"AT+A=7\n"]
+    for i in range(n):
+        line = lines[i % len(lines)]
+        et = "rt"[(i // len(lines)) % 2]
+        usize = [-1, 16][(i // (2 * len(lines))) % 2]
+        cA = Cmd("+A", hx=True, vars=[Var(UINT, 1, RW, "a", mem=b"\x07")])
+        cU = Cmd("+U", vars=[Var(UINT, 1, RW, "u", mem=b"\x09")])
+        sc = Scenario(sid0 + i, [cA, cU], qcap=2, bufsize=48, usize=usize, grain="step", auto="be", meta={"family": "fam_offsets"})
+        for _ in range(40):
+            sc.hs(0, "x", "c", ret=R_OK)
+        for k in range(0, 34):
+            sc.feed(line)
+            sc.svc(k)
+            sc.trig(1, et)
+            if k % 3 == 0:
+                sc.trig(0, "r")
+            sc.settle(4000)
+        out.append(sig(sc, i))
+    return out
+
+
 # --------------------------------------------------------------------------- C16: mutex
 
 def fam_mutex(rng, sid0, n):
